@@ -89,7 +89,10 @@ Frags == <<"x := import(\"m\")", "x := import(\"m\"); undefinedvar", "return imp
            "return import(\"bm\").k", "a := 1; undefinedvar", "a := 2", "a = 3; return a", "f := func() { return import(\"m2\") }; undefinedvar",
            "return f()", "const c = 1; undefinedvar", "return c", "g := func() { return a }; return g(", "return import(\"m2\")",
            "for a, b, c in [1] {}", "try { return import(\"m\") } finally { undefinedvar }",
-           "global gx; undefinedvar", "return gx", "gx = 1; return gx", "x := len([]); undefinedvar", "y, len := [1, 2]; return [y, len]">>
+           "global gx; undefinedvar", "return gx", "gx = 1; return gx", "x := len([]); undefinedvar", "y, len := [1, 2]; return [y, len]",
+           \* fragments refused for a capacity limit (the harness writes out $A256 = 256 call arguments, $L257 = 257 local
+           \* declarations) after they declared a global / locals: what they declared is gone like after any other refusal
+           "global gy; hh := func(...a) { return 0 }; return hh($A256)", "return gy", "global gz; $L257; return gz">>
 
 (* Part "bytesoup": every byte string up to MaxLen over the bytes that drive the scanner's own states (comment and
    string delimiters, carriage return, backslash, NUL, a byte that is no UTF-8, a letter, a digit): the scanner sees
